@@ -6,7 +6,11 @@
        + _format_and_split_arguments                        -> populate_named / format_and_split
      the _named_args_templates cache in
        _populate_transit_event_from_frontend_queue          -> process
-   and the template grammar the property is stated over.  Definitions only. *)
+   and the template grammar the property is stated over.  Definitions only.
+   The scanner has two variants selected by [skip] (scan_hole): skip = true is the scanner as pinned
+   (the inner loop steps over a "}}" that directly follows the close bracket: D11), skip = false is the
+   repaired scanner (the first '}' after the '{' of a placeholder closes it).  Which one stands for
+   the code is read from the source on every run (TieC19.src_scan_skip). *)
 From Coq Require Import List NArith Arith Bool.
 From Quill Require Import Format.NaFmt.
 Import ListNotations.
@@ -94,9 +98,14 @@ Definition split_colon (inside : str) : str * str :=
   | None => (inside, [])
   end.
 
+(* close_bracket_pos of the placeholder starting at [o]: the first '}' after it; the pinned variant
+   then runs the inner while loop above on it *)
+Definition close_of (skip : bool) (s : str) (o : nat) : option nat :=
+  if skip then scan_close (S (length s)) s (find_from RB s (o + 1)) else find_from RB s (o + 1).
+
 (* the body executed for a placeholder starting at [o] *)
-Definition scan_hole (s : str) (o : nat) (st : scan_st) : option nat * scan_st :=
-  match scan_close (S (length s)) s (find_from RB s (o + 1)) with
+Definition scan_hole (skip : bool) (s : str) (o : nat) (st : scan_st) : option nat * scan_st :=
+  match close_of skip s o with
   | None => (None, st)
   | Some c =>
     let inside := substr s (o + 1) (c - (o + 1)) in
@@ -109,7 +118,7 @@ Definition scan_hole (s : str) (o : nat) (st : scan_st) : option nat * scan_st :
   end.
 
 (* the outer while loop: [open] is open_bracket_pos *)
-Fixpoint scan_loop (fuel : nat) (s : str) (open : option nat) (st : scan_st) : scan_st :=
+Fixpoint scan_loop (skip : bool) (fuel : nat) (s : str) (open : option nat) (st : scan_st) : scan_st :=
   match open with
   | None => st
   | Some o =>
@@ -122,17 +131,17 @@ Fixpoint scan_loop (fuel : nat) (s : str) (open : option nat) (st : scan_st) : s
         | None => None
         end in
       match escaped with
-      | Some o2 => scan_loop f s (find_from LB s (o2 + 1)) st              (* "{{": continue *)
+      | Some o2 => scan_loop skip f s (find_from LB s (o2 + 1)) st         (* "{{": continue *)
       | None =>
-        let '(close, st') := scan_hole s o st in
+        let '(close, st') := scan_hole skip s o st in
         (* open_bracket_pos = fmt_template.find_first_of('{', close_bracket_pos) *)
-        scan_loop f s (match close with Some c => find_from LB s c | None => None end) st'
+        scan_loop skip f s (match close with Some c => find_from LB s c | None => None end) st'
       end
     end
   end.
 
-Definition scan (s : str) : str * list (str * str) :=
-  let st := scan_loop (S (length s)) s (find_from LB s 0)
+Definition scan (skip : bool) (s : str) : str * list (str * str) :=
+  let st := scan_loop skip (S (length s)) s (find_from LB s 0)
                       {| cur_pos := 0; fmt_str := []; keys := [] |} in
   (fmt_str st ++ skipn (cur_pos st) s, keys st).
 
@@ -202,6 +211,7 @@ Section Oracle.
 Variable arg : Type.
 Variable apply_spec : str -> arg -> option str.
 Variable is_string : arg -> bool.                 (* DynamicFormatArgStore::has_string_related_type *)
+Variable skip : bool.                             (* the scanner variant, see scan_hole *)
 
 Definition has_string (args : list arg) : bool := existsb is_string args.
 Definition sanitize_if (b : bool) (s : str) : str := if b then sanitize s else s.
@@ -261,7 +271,7 @@ Definition process (c : cache) (t : str) (args : list arg) : cache * result :=
   if contains_named t then
     match lookup t c with
     | Some e => (c, use_entry e args)
-    | None => let e := scan t in ((t, e) :: c, use_entry e args)
+    | None => let e := scan skip t in ((t, e) :: c, use_entry e args)
     end
   else (c, {| r_text := sink_text t args; r_named := None |}).
 
